@@ -35,11 +35,12 @@ def process_string(doc: str, path: Path) -> str:
         index_from, index_to = match.span()
         name = match.group(1)
 
-        directory = ""
+        # a name can be defined in several modules, refer to the one which object is exported
+        exported = getattr(symbols, name, None)
         for directory, collection in _symbols_by_module.items():
-            if name in collection:
+            if name in collection and getattr(getattr(symbols, directory), name) is exported:
                 break
-        if not directory:
+        else:
             raise ValueError(f"Unknown symbol '{name}' in '{path}'.")
 
         part_before = doc[last_index_to:index_from]
